@@ -45,3 +45,23 @@ Theorem C11_plain_directory_sizes : forall entries,
                  (map (fun e => (e_target e, Some (e_tsize e))) entries).
 Proof. exact plain_size_is_cumulative. Qed.
 Print Assumptions C11_plain_directory_sizes.
+
+(* the recursive importer: for EVERY tree of files (< 2^63 bytes), symlinks and directories of any size (plain or sharded,
+   at every level) the size BuildUnixFSRecursive returns is the cumulative stored size of the DAG it built, as long as
+   that total is below 2^64 (and with it every link carries the cumulative size of its target: `sized`) *)
+From UV Require Import Build.FsImport Build.ImportSizes File.Spec.
+Theorem C11_import_size_is_cumulative : forall W, (2 <= W)%nat -> forall chunk, (forall b, concat (chunk b) = b) ->
+  forall hash t, files_fit t -> forall b sz,
+  import W chunk hash t = Ok (b, sz) -> cum_size b < 2 ^ 64 -> sz = cum_size b.
+Proof. exact import_size_is_cumulative. Qed.
+Print Assumptions C11_import_size_is_cumulative.
+
+(* the two directory builders on entries that carry the cumulative sizes of their targets *)
+Theorem C11_plain_size_is_cum : forall entries, Forall sized entries -> snd (build_plain entries) = cum_size (fst (build_plain entries)).
+Proof. exact plain_size_is_cum. Qed.
+Print Assumptions C11_plain_size_is_cum.
+
+Theorem C11_sharded_size_is_cum : forall size lg entries root sz,
+  Forall sized entries -> log2_exact size = Some lg -> build_sharded size HashMurmur3 entries = Ok (root, sz) -> sz = cum_size root.
+Proof. exact sharded_size_is_cum. Qed.
+Print Assumptions C11_sharded_size_is_cum.
